@@ -5,6 +5,7 @@
 //!     `Gcov.Json.fromReader` (JSON value tree) on well-formed and malformed inputs;
 //! (3) robustness oracle (shared with C14): no input may panic the reader; the witnesses of the two
 //!     defects repaired in /repo 9e71186 are replayed first and must give `err …`.
+mod bytes;
 mod json;
 mod text;
 
@@ -702,6 +703,9 @@ pub fn run(rep: &mut Report) {
         report_panic(rep, &ctx, c, &mut budget);
     }
     tie(rep, &ctx, &cases);
+    if std::env::var("VERIF_NO_MODEL").is_err() {
+        bytes::run(rep, &ctx);
+    }
 }
 
 fn witnesses_json(rng: &mut Rng) -> Vec<(&'static str, Vec<u8>, Option<J>, Option<String>, &'static str)> {
@@ -825,6 +829,7 @@ pub fn replay(rep: &mut Report, case: &serde_json::Value) {
                 rep.fail("disagreement", None, format!("parse_gcov = {} but Gcov.Text.parse = {}", got, model), case.clone());
             }
         }
+        "gcov.jsonbytes" => bytes::replay(rep, &ctx, case),
         "gcov.json" => {
             let gz = unhex(case["gz_hex"].as_str().unwrap());
             let (got, site) = impl_gz(&ctx, &gz);
